@@ -58,6 +58,19 @@ def gen_tout(rng, n=None):
     return ts
 
 
+def imf_mean_mass(mb, a):
+    """mean stellar mass of the continuous broken power law (independent of the library)"""
+    def pk(k, s, lo, hi):
+        e = s + k
+        return math.log(hi / lo) if e == 0 else (hi ** e - lo ** e) / e
+    A = [1.0]
+    for i in range(1, len(a)):
+        A.append(A[-1] * mb[i] ** (a[i - 1] - a[i]))
+    n = sum(Ai * pk(1, ai, mb[i], mb[i + 1]) for i, (Ai, ai) in enumerate(zip(A, a)))
+    m = sum(Ai * pk(2, ai, mb[i], mb[i + 1]) for i, (Ai, ai) in enumerate(zip(A, a)))
+    return m / n
+
+
 def gen_config(rng, escape=False, small=False, kicks=None, tout=None):
     mb, a = gen_imf(rng)
     cfg = {"m_breaks": mb, "a_slopes": a, "nbins": gen_nbins(rng, len(a), small), "FeH": gen_feh(rng),
@@ -93,7 +106,8 @@ def gen_config(rng, escape=False, small=False, kicks=None, tout=None):
         tmax = max(cfg["tout"])
         frac = rng.uniform(0.05, 0.6)
         kw["esc_norm"] = rng.choice(["N", "M"])
-        scale = cfg["N0"] if kw["esc_norm"] == "N" else cfg["N0"] * 0.4
+        # the requested loss stays below 60 % of what the cluster holds (in the quantity that is normalised)
+        scale = cfg["N0"] if kw["esc_norm"] == "N" else cfg["N0"] * imf_mean_mass(mb, a)
         cfg["esc_rate"] = -frac * scale / tmax
         if rng.random() < 0.5:
             kw["tcc"] = rng.choice([0.0, tmax * rng.random(), tmax * 2])
@@ -124,6 +138,8 @@ def add_edge_age(cfg, rng):
     """put one requested age exactly on (or one ulp beside) a bin-edge lifetime"""
     import math
     ts = edge_ages(cfg)
+    if cfg.get("esc_rate", 0.0) != 0.0:
+        ts = [t for t in ts if t <= max(cfg["tout"])]      # the escape rate was scaled to the latest requested age
     if ts:
         t = rng.choice(ts)
         t = rng.choice([t, t, math.nextafter(t, 0.0), math.nextafter(t, math.inf)])
